@@ -24,6 +24,8 @@ fn one(u: &mut Unstructured<'_>) -> TransferCase {
         verdicts: (0..nv).map(|_| u.arbitrary().unwrap_or(true)).collect(),
         bad_ack: if u.int_in_range(0..=4u8).unwrap_or(0) == 0 { Some((u.int_in_range(0..=2usize).unwrap_or(0), u.int_in_range(0..=3u8).unwrap_or(0))) } else { None },
         if_needed_hello: if u.int_in_range(0..=3u8).unwrap_or(0) == 0 { Some(u.int_in_range(0..=12u8).unwrap_or(0)) } else { None },
+        dup_pages: u.int_in_range(0..=4u8).unwrap_or(0) == 0,
+        bus_error_at: if u.int_in_range(0..=5u8).unwrap_or(0) == 0 { Some((u.int_in_range(0..=40usize).unwrap_or(0), u.int_in_range(0..=3u8).unwrap_or(0))) } else { None },
     }
 }
 
